@@ -20,7 +20,6 @@ import (
 	"math/rand"
 	"os"
 	"runtime"
-	"sort"
 	"strconv"
 	"strings"
 	"sync"
@@ -245,13 +244,18 @@ type c27result struct {
 	incon    string
 }
 
-func c27sortPeers(ps []c27peer) {
-	sort.Slice(ps, func(i, j int) bool { return ps[i].id < ps[j].id })
-}
-
 const c27nh = 4
 
 func c27run(ttl int, ops []c27op) c27result {
+	nh := 1
+	for _, o := range ops {
+		if (o.k == 1 || o.k == 2) && o.h+1 > nh {
+			nh = o.h + 1
+		}
+	}
+	if nh > c27nh {
+		nh = c27nh
+	}
 	clk := &c27clock{Clock: clock.New(), base: time.Date(2019, time.November, 1, 1, 0, 0, 0, time.UTC)}
 	s := NewLocalStore(LocalConfig{TTL: time.Duration(ttl)}, clk)
 	defer s.Close()
@@ -280,9 +284,17 @@ func c27run(ttl int, ops []c27op) c27result {
 			res.nonempty++
 		}
 	}
+	// count observes the size of the store without adding to the case
+	count := func() {
+		lastTotal = 0
+		for h := 0; h < nh; h++ {
+			lastTotal += len(get(h, 1000))
+		}
+	}
+	// dump makes the whole state observable through GetPeers
 	dump := func() {
 		total := 0
-		for h := 0; h < c27nh; h++ {
+		for h := 0; h < nh; h++ {
 			ps := get(h, 1000)
 			total += len(ps)
 			emitGet(h, 1000, ps)
@@ -330,7 +342,7 @@ func c27run(ttl int, ops []c27op) c27result {
 					mids[h] = m
 				}
 			}
-			dump()
+			count()
 			clk.mu.Lock()
 			clk.inPass, clk.passG = true, c27goid()
 			clk.groups, clk.scanned, clk.remaining = groups, map[int]bool{}, 0
@@ -372,12 +384,10 @@ func c27run(ttl int, ops []c27op) c27result {
 			if len(mids) > 0 {
 				res.hist = append(res.hist, "CleanE+mid")
 				lastTotal = -1
-			} else {
-				// lastTotal was set by the dump just before the pass
 			}
 			dump()
 		case 4:
-			dump()
+			count()
 			s.cleanupExpiredPeerGroups()
 			res.ops = append(res.ops, "OCleanG")
 			res.hist = append(res.hist, "CleanG")
@@ -474,7 +484,7 @@ func c27random(ctx *verifhlib.Ctx, r *verifhlib.Rng, maxLen int) {
 			ns := []int{-1, 0, 1, 2, 3, np, np + 1, 1000}
 			h := r.Intn(nh)
 			if r.Chance(5) {
-				h = 3
+				h = nh // a torrent nobody announced
 			}
 			ops = append(ops, c27get(h, ns[r.Intn(len(ns))]))
 		case k < 92:
